@@ -396,11 +396,15 @@ class Instance(Component):
                 n2 = n * n
                 state = 1
             else:
-                row: Iterable[int] = map(_flow_or_dist_to_int, line.split())
+                row: list[int] = list(map(_flow_or_dist_to_int, line.split()))
                 if state == 1:
-                    flows.extend(row)
+                    # a line may hold the last flows and the first distances
+                    needed: int = n2 - len(flows)
+                    flows.extend(row[:needed])
+                    row = row[needed:]
                     if len(flows) >= n2:
                         state = 2
+                    if len(row) <= 0:
                         continue
                 dists.extend(row)
                 if len(dists) >= n2:
